@@ -546,6 +546,301 @@ fn do_utf8(cx: &mut Cx, rng: &mut Rng) {
     cx.push(format!("KUtf8 {} {}", coq_bytes(&b), coq_bool(v)), true);
 }
 
+// ------------------------------------------------------------------------------------------------
+// deterministic boundary family (identical for every seed)
+
+fn roundtrip(cx: &mut Cx, suffix: &str, data: &[u8]) -> Option<String> {
+    let u5s = data.to_base32();
+    cx.push(format!("KToBase32 {} {}", coq_bytes(data), coq_bytes(&u5s.iter().map(|x| x.to_u8()).collect::<Vec<_>>())), true);
+    match Vec::<u8>::from_base32(&u5s) {
+        Ok(back) if back == data => {}
+        other => cx.fail(format!("from_base32(to_base32({})) = {:?}", hex(data), other), json!({"op":"bits","data":hex(data)})),
+    }
+    let s = cx.encode(suffix, data)?;
+    match cx.decode(suffix, &s) {
+        Some(Ok((et, d))) if d == data && et as u8 == data[0] => {}
+        other => cx.fail(format!("decode(encode(data)) on the same network = {:?}", other), json!({"op":"roundtrip","suffix":suffix,"data":hex(data),"string":s})),
+    }
+    Some(s)
+}
+
+fn must_reject(cx: &mut Cx, suffix: &str, m: &str, original: &str) {
+    if let Some(Ok((_, d))) = cx.decode(suffix, m) {
+        if m.to_lowercase() != original {
+            cx.fail(format!("mutated address {:?} accepted (data {})", m, hex(&d)), json!({"op":"mutation","suffix":suffix,"string":m}));
+        }
+    }
+}
+
+fn print_and_parse(cx: &mut Cx, id: &NonFungibleLocalId) {
+    let s = id.to_string();
+    cx.push(format!("KLocalPrint {} {}", id_coq(id), coq_bytes(s.as_bytes())), true);
+    match parse_local(cx, &s) {
+        Some(Ok(back)) if back == *id => {}
+        other => cx.fail(format!("from_str(to_string({:?})) = {:?}", s, other), json!({"op":"local_roundtrip","string":s})),
+    }
+}
+
+fn boundary_family(cx: &mut Cx) {
+    let u5 = |v: u8| bech32::u5::try_from_u8(v).unwrap();
+    let body: Vec<u8> = (1..=29u8).map(|i| i.wrapping_mul(37)).collect();
+    let node = |b: u8| -> Vec<u8> {
+        let mut d = vec![b];
+        d.extend(body.iter());
+        d
+    };
+    // A. EntityType::from_repr: every first byte
+    for b in 0u16..=255 {
+        let b = b as u8;
+        let d = vec![b, 1, 2];
+        cx.report.count("bf_entity_byte");
+        if roundtrip(cx, "rdx", &d).is_none() {
+            let m = bech32::encode("account_rdx", d.to_base32(), Variant::Bech32m).unwrap();
+            cx.decode("rdx", &m);
+        }
+    }
+    // B. data length: empty, 1, every residue mod 5 twice, node id +-1, total text length 89..92
+    for n in [0usize, 1, 2, 3, 4, 5, 6, 7, 8, 9, 10, 11, 12, 29, 30, 31, 44, 45, 46] {
+        for (k, pat) in [0u8, 0xff, 0x5a].iter().enumerate() {
+            for first in [193u8, 194] {
+                let mut d: Vec<u8> = if n == 0 { vec![] } else { vec![first] };
+                while d.len() < n {
+                    d.push(if k == 2 { (d.len() as u8).wrapping_mul(*pat) } else { *pat });
+                }
+                cx.report.count("bf_data_length");
+                roundtrip(cx, "rdx", &d);
+            }
+        }
+    }
+    // C. check_hrp in the encoder: character classes, case, length 82/83/84, '1' inside the HRP
+    let mut suffixes: Vec<String> = ["", " ", "!", "~", "\u{7f}", "`", "a", "z", "{", "@", "A", "Z", "[", "é", "rDx", "RDX", "rdX", "1", "11", "tdx_1_", "_", "0", "9", ":", "a:b", "a1b1"]
+        .iter()
+        .map(|x| x.to_string())
+        .collect();
+    for l in [77usize, 78, 79, 59, 60, 61] {
+        suffixes.push("x".repeat(l));
+    }
+    for suf in suffixes {
+        for b in [196u8, 176] {
+            cx.report.count("bf_suffix");
+            if let Some(s) = roundtrip(cx, &suf, &node(b)) {
+                cx.report.count("bf_suffix_accepted");
+                // the neighbouring networks must reject it
+                for other in [format!("{}x", suf), if suf.is_empty() { "q".to_string() } else { suf[..suf.len() - 1].to_string() }] {
+                    if other != suf && other.is_char_boundary(other.len()) {
+                        if let Some(Ok(_)) = cx.decode(&other, &s) {
+                            cx.fail(format!("address {:?} of suffix {:?} accepted by suffix {:?}", s, suf, other), json!({"op":"other_network","string":s}));
+                        }
+                    }
+                }
+            }
+        }
+    }
+    // D. decoder shapes on a fixed address
+    let acc = node(193);
+    let s0 = AddressBech32Encoder::new(&net("rdx")).encode(&acc).unwrap();
+    let sep = s0.rfind('1').unwrap();
+    let (hrp0, data0) = (&s0[..sep], &s0[sep + 1..]);
+    let shapes: Vec<String> = vec![
+        "".into(), "1".into(), "11".into(), s0.replace('1', ""), format!("1{}", data0), format!("{}1", hrp0), format!("{}1{}", hrp0, &data0[..5]), format!("{}1{}", hrp0, &data0[..6]),
+        format!("{}1qqqqq", hrp0), format!("{}1qqqqqq", hrp0), format!("{}1qqqqqq", "a".repeat(83)), format!("{}1qqqqqq", "a".repeat(84)), format!("{}1qqqqqq", "a".repeat(82)),
+        format!("acc unt_rdx1{}", data0), format!("acc\u{7f}unt_rdx1{}", data0), format!("accéunt_rdx1{}", data0), format!("{}1{}é", hrp0, data0), format!("{}1é{}", hrp0, data0),
+        s0.to_uppercase(), format!("{}1{}", hrp0.to_uppercase(), data0), format!("{}1{}", hrp0, data0.to_uppercase()), format!("Account_rdx1{}", data0), format!("account_rdX1{}", data0),
+        format!("{}1{}{}", hrp0, data0[..1].to_uppercase(), &data0[1..]), format!("{}1{}{}", hrp0, &data0[..data0.len() - 1], data0[data0.len() - 1..].to_uppercase()),
+        format!("{}1{}", s0, data0), format!("{}{}", s0, "q"), s0[1..].to_string(), s0[..s0.len() - 1].to_string(),
+    ];
+    for m in shapes {
+        cx.report.count("bf_decoder_shape");
+        if m == s0.to_uppercase() {
+            match cx.decode("rdx", &m) {
+                Some(Ok((_, d))) if d == acc => {}
+                other => cx.fail(format!("all-uppercase form: {:?}", other), json!({"op":"uppercase","string":m})),
+            }
+        } else {
+            must_reject(cx, "rdx", &m, &s0);
+        }
+    }
+    // HRP without letters (Case::None): the data part decides the case
+    for variant_case in 0..4 {
+        let base = bech32::encode("2_", acc.to_base32(), Variant::Bech32m).unwrap();
+        let sp = base.rfind('1').unwrap();
+        let m = match variant_case {
+            0 => base.clone(),
+            1 => base.to_uppercase(),
+            2 => format!("{}{}{}", &base[..sp + 2], base[sp + 2..sp + 3].to_uppercase(), &base[sp + 3..]),
+            _ => format!("{}{}", &base[..base.len() - 1], base[base.len() - 1..].to_uppercase()),
+        };
+        cx.report.count("bf_caseless_hrp");
+        cx.decode("rdx", &m);
+    }
+    // every position substituted once (HRP, separator, data, each of the six checksum symbols)
+    let chars0: Vec<char> = s0.chars().collect();
+    for pos in 0..chars0.len() {
+        let mut c = chars0.clone();
+        let idx = CHARSET.iter().position(|x| *x as char == c[pos]);
+        c[pos] = match idx {
+            Some(i) => CHARSET[(i + 1) % 32] as char,
+            None => 'x',
+        };
+        cx.report.count(if pos + 6 >= chars0.len() { "bf_checksum_symbol_flipped" } else { "bf_each_position_substituted" });
+        must_reject(cx, "rdx", &c.into_iter().collect::<String>(), &s0);
+    }
+    // character classes of the data part (CHARSET_REV edges)
+    for ch in ['/', '0', '9', ':', '@', 'A', 'B', 'I', 'O', 'Z', '[', '`', 'a', 'b', 'i', 'o', 'z', '{', '\u{7f}', ' ', '_', '-'] {
+        let mut c = chars0.clone();
+        c[sep + 3] = ch;
+        cx.report.count("bf_data_char_class");
+        must_reject(cx, "rdx", &c.into_iter().collect::<String>(), &s0);
+    }
+    // variant constant
+    cx.report.count("bf_variant");
+    let mv = bech32::encode(hrp0, acc.to_base32(), Variant::Bech32).unwrap();
+    match cx.decode("rdx", &mv) {
+        Some(Err(AddressBech32DecodeError::InvalidVariant(_))) => {}
+        other => cx.fail(format!("Bech32 (not m) string: {:?}", other), json!({"op":"variant","string":mv})),
+    }
+    // padding rules of convert_bits: every payload length 0..=17, zero / all-ones / last symbol 1
+    for n in 0..=17usize {
+        for pat in 0..3 {
+            let mut v: Vec<bech32::u5> = (0..n).map(|i| u5(if pat == 1 { 31 } else if i == 0 { 24 } else { 0 })).collect();
+            if pat == 2 && n > 0 {
+                v[n - 1] = u5(1);
+            }
+            cx.report.count("bf_padding");
+            let raw: Vec<u8> = v.iter().map(|x| x.to_u8()).collect();
+            cx.push(
+                format!("KFromBase32 {} {}", coq_bytes(&raw), match Vec::<u8>::from_base32(&v) {
+                    Ok(x) => format!("(Ok {})", coq_bytes(&x)),
+                    Err(e) => format!("(Err {})", b32_err(&e)),
+                }),
+                true,
+            );
+            let m = bech32::encode("pool_rdx", v, Variant::Bech32m).unwrap();
+            cx.decode("rdx", &m);
+        }
+    }
+    // entity / HRP binding: every entity type under the HRP of the next entity type
+    let ebs = cx.entity_bytes.clone();
+    let enc = AddressBech32Encoder::new(&net("rdx"));
+    for (i, b) in ebs.iter().enumerate() {
+        let d = node(*b);
+        let own = enc.hrp_set.get_entity_hrp(&EntityType::from_repr(*b).unwrap()).to_string();
+        for j in [1usize, 7] {
+            let other = ebs[(i + j) % ebs.len()];
+            let hrp = enc.hrp_set.get_entity_hrp(&EntityType::from_repr(other).unwrap()).to_string();
+            let m = bech32::encode(&hrp, d.to_base32(), Variant::Bech32m).unwrap();
+            cx.report.count("bf_transplant");
+            match cx.decode("rdx", &m) {
+                Some(Ok(_)) if hrp == own => {}
+                Some(Err(AddressBech32DecodeError::InvalidHrp)) if hrp != own => {}
+                other => cx.fail(format!("HRP {:?} on entity byte {}: {:?}", hrp, b, other), json!({"op":"transplant","string":m})),
+            }
+        }
+    }
+    // E. local ids
+    for id in [
+        NonFungibleLocalId::string("a").unwrap(), NonFungibleLocalId::string("_").unwrap(), NonFungibleLocalId::string("z".repeat(64)).unwrap(),
+        NonFungibleLocalId::string("azAZ09_").unwrap(), NonFungibleLocalId::integer(0), NonFungibleLocalId::integer(1), NonFungibleLocalId::integer(9), NonFungibleLocalId::integer(10),
+        NonFungibleLocalId::integer(u64::MAX), NonFungibleLocalId::integer(u64::MAX - 1), NonFungibleLocalId::integer(10_000_000_000_000_000_000), NonFungibleLocalId::integer(9_999_999_999_999_999_999),
+        NonFungibleLocalId::bytes(vec![0u8]).unwrap(), NonFungibleLocalId::bytes(vec![0xffu8; 64]).unwrap(), NonFungibleLocalId::bytes(vec![0x0f, 0xf0, 0x9a, 0xa9]).unwrap(),
+        NonFungibleLocalId::ruid([0u8; 32]), NonFungibleLocalId::ruid([0xffu8; 32]), NonFungibleLocalId::ruid([0xa9u8; 32]),
+    ] {
+        cx.report.count("bf_local_valid");
+        print_and_parse(cx, &id);
+    }
+    let z64 = "z".repeat(64);
+    let z65 = "z".repeat(65);
+    let h64 = "ab".repeat(64);
+    let h65 = "ab".repeat(65);
+    let strings: Vec<String> = vec![
+        "<>".into(), "<a>".into(), format!("<{}>", z64), format!("<{}>", z65), "</>".into(), "<0>".into(), "<9>".into(), "<:>".into(), "<@>".into(), "<A>".into(), "<Z>".into(), "<[>".into(),
+        "<^>".into(), "<_>".into(), "<`>".into(), "<a>".into(), "<z>".into(), "<{>".into(), "<é>".into(), "<a b>".into(), "<a>b>".into(), "<<a>>".into(), "<".into(), ">".into(), "<a".into(), "a>".into(),
+    ];
+    for m in &strings {
+        cx.report.count("bf_local_string");
+        parse_local(cx, m);
+    }
+    for m in [
+        "#0#", "#00#", "#01#", "#1#", "#9#", "#10#", "#09#", "#18446744073709551615#", "#18446744073709551616#", "#18446744073709551614#", "#018446744073709551615#", "#99999999999999999999#",
+        "#100000000000000000000#", "#+1#", "#-1#", "#+0#", "##", "#", "# #", "#1 #", "# 1#", "#/#", "#:#", "#1/#", "#1:#", "#a#", "#1a#", "#１#", "#1１#", "#1#1#", "#1", "1#", "#0x1#", "#1_0#",
+    ] {
+        cx.report.count("bf_local_integer");
+        parse_local(cx, m);
+    }
+    let bytes_strings: Vec<String> = vec![
+        "[]".into(), "[0]".into(), "[00]".into(), "[000]".into(), format!("[{}]", h64), format!("[{}]", h65), "[/0]".into(), "[0/]".into(), "[:0]".into(), "[0:]".into(), "[@0]".into(), "[A0]".into(),
+        "[F0]".into(), "[G0]".into(), "[0G]".into(), "[`0]".into(), "[a0]".into(), "[f0]".into(), "[g0]".into(), "[0g]".into(), "[aF]".into(), "[é0]".into(), "[0é]".into(), "[0 ]".into(), "[".into(), "]".into(), "[00".into(), "00]".into(),
+    ];
+    for m in &bytes_strings {
+        cx.report.count("bf_local_bytes");
+        parse_local(cx, m);
+    }
+    let ruid = "{0123456789abcdef-0123456789abcdef-0123456789abcdef-0123456789abcdef}";
+    let rc: Vec<char> = ruid.chars().collect();
+    let mut ruids: Vec<String> = vec![ruid.to_string(), ruid.to_uppercase(), "{}".into(), "{---}".into(), "{".into(), "}".into()];
+    for hy in [17usize, 34, 51] {
+        // the hyphen replaced by a digit, moved one place left / right, and an extra hyphen next to it
+        for (from, to) in [(hy, hy), (hy, hy - 1), (hy, hy + 1)] {
+            let mut c = rc.clone();
+            c[from] = '0';
+            if from != to {
+                c[to] = '-';
+            }
+            ruids.push(c.into_iter().collect());
+        }
+        for extra in [hy - 1, hy + 1] {
+            let mut c = rc.clone();
+            c[extra] = '-';
+            ruids.push(c.into_iter().collect());
+        }
+        let mut c = rc.clone();
+        c[hy] = 'é';
+        ruids.push(c.into_iter().collect());
+    }
+    for pos in [1usize, 16, 18, 33, 35, 50, 52, 67] {
+        for ch in ['g', 'G', 'é', '-', ' '] {
+            let mut c = rc.clone();
+            c[pos] = ch;
+            ruids.push(c.into_iter().collect());
+        }
+    }
+    ruids.push(format!("{}0}}", &ruid[..ruid.len() - 1]));
+    ruids.push(format!("{}}}", &ruid[..ruid.len() - 2]));
+    ruids.push(format!("{{0{}", &ruid[1..]));
+    for m in &ruids {
+        cx.report.count("bf_local_ruid");
+        parse_local(cx, m);
+    }
+    for open in ['<', '#', '[', '{'] {
+        for close in ['>', '#', ']', '}'] {
+            cx.report.count("bf_local_brackets");
+            parse_local(cx, &format!("{}1{}", open, close));
+            parse_local(cx, &format!("{}{}", open, close));
+        }
+    }
+    for m in ["", "a", "1", " ", "é", "<é", "é>"] {
+        cx.report.count("bf_local_brackets");
+        parse_local(cx, m);
+    }
+    // F. global ids
+    let res30 = node(93);
+    let ra = enc.encode(&res30).unwrap();
+    let mut res29 = res30.clone();
+    res29.pop();
+    let mut res31 = res30.clone();
+    res31.push(7);
+    let globals: Vec<String> = vec![
+        format!("{}:#1#", ra), format!("{}:<a>", ra), format!("{}:[00]", ra), format!("{}:{}", ra, ruid), format!("{}:#01#", ra), format!("{}:", ra), format!("{}", ra), format!(":{}", ra),
+        ":".into(), "".into(), "::".into(), ":#1#".into(), format!("{}:#1#:", ra), format!("{}::#1#", ra), format!("{}:#1#:#2#", ra), format!("{}:#1#", enc.encode(&res29).unwrap()),
+        format!("{}:#1#", enc.encode(&res31).unwrap()), format!("{}:#1#", enc.encode(&node(154)).unwrap()), format!("{}:#1#", enc.encode(&node(193)).unwrap()), format!("{}:#1#", enc.encode(&node(88)).unwrap()),
+        format!("{}:#1#", ra.to_uppercase()), format!("{} :#1#", ra), format!("{}:#1#", AddressBech32Encoder::new(&net("sim")).encode(&res30).unwrap()),
+    ];
+    for m in &globals {
+        cx.report.count("bf_global");
+        parse_global(cx, "rdx", m);
+    }
+}
+
 fn main() {
     let args = Args::parse();
     let mut report = Report::new(
@@ -577,6 +872,7 @@ fn main() {
         for s in ["", "1", "a1", "1qqqqqq", "account_rdx1", "é1qqqqqq", "A1Qqqqqqq"] {
             cx.decode("rdx", s);
         }
+        boundary_family(&mut cx);
     }
     for i in 0..args.cases {
         let mut rng = root.fork(i as u64);
@@ -599,6 +895,13 @@ fn main() {
     report.floor("global_id_roundtrips", n / 20);
     report.floor("global_parse_ok", n / 20);
     report.floor("global_parse_err", n / 20);
+    for (class, min) in [
+        ("bf_entity_byte", 256), ("bf_data_length", 114), ("bf_suffix", 64), ("bf_suffix_accepted", 43), ("bf_decoder_shape", 29), ("bf_caseless_hrp", 4),
+        ("bf_each_position_substituted", 60), ("bf_checksum_symbol_flipped", 6), ("bf_data_char_class", 22), ("bf_variant", 1), ("bf_padding", 54), ("bf_transplant", 44),
+        ("bf_local_valid", 18), ("bf_local_string", 26), ("bf_local_integer", 34), ("bf_local_bytes", 28), ("bf_local_ruid", 67), ("bf_local_brackets", 23), ("bf_global", 23),
+    ] {
+        report.floor(class, min);
+    }
     cw.write(&args.out, args.shards).unwrap();
     report.write(&args.out).unwrap();
 }
